@@ -367,9 +367,11 @@ class Monitors:
             case['worst'] = {'x_hex': float(xv[i]).hex(), 'got': repr(np.ravel(got)[i]),
                              'expected': repr(np.ravel(exp)[i]), 'abs_err': repr(np.ravel(err)[i]),
                              'tol': repr(np.ravel(tol)[i])}
-            rel = float(np.ravel(err)[i] / max(abs(np.ravel(exp)[i]), LD('1e-4000')))
+            e_i, x_i = np.ravel(exp)[i], float(xv[i])
+            how = (f'{float(np.ravel(err)[i] / abs(e_i)):.3g} relative' if abs(e_i) > LD('1e-290')
+                   else f'{float(np.ravel(err)[i]):.3g} absolute (expected {float(e_i):.3g})')
             ctx.violation('value', f'{name}: {case["spec"]} differs from the analytic definition by '
-                          f'{rel:.3g} relative ({worst:.3g} x bound) at x={xv[i]!r}', case,
+                          f'{how} ({worst:.3g} x bound) at x={x_i!r}', case,
                           model=kind, layer='pointwise')
             return False
         return True
